@@ -63,10 +63,10 @@ Qed.
     interpolator of the crate provides: lengths are multiples of 8). *)
 From Rubato.Proofs Require Import SincOutR.
 
-Theorem so_ctor_wf_R ratio maxrel env ilen inbr chunk nch s :
+Theorem so_ctor_wfe_R ratio maxrel env ilen inbr chunk nch s :
   (1 <= chunk)%Z -> (0 <= nch)%Z -> (8 <= ilen)%Z -> (ilen mod 2 = 0)%Z -> nbr_ok (se_type env) inbr ->
   @sinc_out_new CR SR ratio maxrel env ilen inbr chunk nch = inr (RSincOut env s) ->
-  exists blen, so_wf env blen s /\ ratio = uratio s /\ uL s = ilen.
+  exists blen, so_wfe env blen s /\ ratio = uratio s /\ uL s = ilen.
 Proof.
   intros Hc Hn HL Hev Hnb. unfold sinc_out_new.
   destruct (validate_ratios_sinc ratio maxrel) eqn:E; [discriminate|].
@@ -93,6 +93,27 @@ Proof.
     assert (Hy : IZR (2 * N0) <= (maxrel + 1 / 1) * IZR N0) by (rewrite mult_IZR; replace (1 / 1) with 1 by field; change (IZR 2) with 2; nra).
     rewrite Ztrunc_floor by (rewrite mult_IZR in Hy; change (IZR 2) with 2 in Hy; lra).
     assert (2 * N0 <= Zfloor ((maxrel + 1 / 1) * IZR N0))%Z by (apply Zfloor_lub; exact Hy). lia. }
+  assert (HBcap : forall r2, ratio / maxrel <= r2 -> 0 < r2 /\ (Zceil (IZR chunk * / r2) + 3 * ilen <= B)%Z).
+  { intros r2 H2. assert (Hqq : 0 < ratio / maxrel) by (apply Rdiv_lt_0_compat; lra).
+    assert (Hr2 : 0 < r2) by lra. split; [exact Hr2|].
+    assert (Hinv : / r2 <= maxrel * / ratio).
+    { replace (maxrel * / ratio) with (/ (ratio / maxrel)) by (field; lra). apply Rinv_le_contravar; assumption. }
+    assert (Hx2 : IZR chunk * / r2 <= maxrel * (IZR chunk * / ratio)) by nra.
+    assert (Hh4 : 4 <= IZR (ilen ÷ 2)) by (change 4 with (IZR 4); apply IZR_le; lia).
+    assert (HLh : IZR ilen = 2 * IZR (ilen ÷ 2)) by (rewrite Hq at 1; rewrite mult_IZR; reflexivity).
+    assert (Hn0 : IZR chunk * / ratio <= IZR N0 - IZR (ilen ÷ 2)).
+    { rewrite HN0, plus_IZR. generalize (Zceil_ub (IZR chunk * / ratio)). lra. }
+    assert (Hx1 : 1 <= IZR N0 - IZR (ilen ÷ 2)).
+    { rewrite HN0, plus_IZR. assert (1 <= IZR (Zceil (IZR chunk * / ratio))); [|lra].
+      apply IZR_le. assert (0 < Zceil (IZR chunk * / ratio))%Z; [|lia]. apply lt_IZR.
+      generalize (Zceil_ub (IZR chunk * / ratio)). change (IZR 0) with 0. lra. }
+    rewrite EB. unfold so_new_buffer_channel_length. cbv [c_to_usize cmul cadd c_of_Z c_lit CR cnum].
+    replace (1 / 1) with 1 by field.
+    assert (Hbig : IZR chunk * / r2 + IZR ilen + 1 <= (maxrel + 1) * IZR N0) by nra.
+    rewrite Ztrunc_floor by nra. rewrite Z.max_r by (apply Zfloor_lub; change (IZR 0) with 0; nra).
+    assert (Hcc : (Zceil (IZR chunk * / r2) + ilen <= Zfloor ((maxrel + 1) * IZR N0))%Z).
+    { apply Zfloor_lub. rewrite plus_IZR. generalize (Zceil_lb (IZR chunk * / r2)). lra. }
+    lia. }
   clear EN0 EB.
   cbv [set_SincFixedOut_max_relative_ratio set_SincFixedOut_target_ratio set_SincFixedOut_resample_ratio_original
        set_SincFixedOut_resample_ratio set_SincFixedOut_last_index set_SincFixedOut_chunk_size set_SincFixedOut_max_chunk_size
@@ -104,25 +125,39 @@ Proof.
   assert (Hq4 : (4 <= ilen ÷ 2)%Z) by lia.
   assert (HqR : 4 <= IZR (ilen ÷ 2)) by (change 4 with (IZR 4); apply IZR_le; exact Hq4).
   assert (HLR : IZR ilen = 2 * IZR (ilen ÷ 2)) by (rewrite Hq at 1; rewrite mult_IZR; reflexivity).
-  constructor; unfold uC, uCmax, unch, uratio, uli, uL, unbr, ufill, uneeded; cbn [as_ctl as_buf as_mask];
-    cbn [SincFixedOut_nbr_channels SincFixedOut_chunk_size SincFixedOut_max_chunk_size SincFixedOut_needed_input_size
-         SincFixedOut_last_index SincFixedOut_current_buffer_fill SincFixedOut_resample_ratio SincFixedOut_target_ratio
-         SincFixedOut_interpolator_len SincFixedOut_interpolator_nbr_sincs].
-  - lia.
-  - exact Hn.
-  - unfold chans. rewrite repeat_length. reflexivity.
-  - unfold chans. rewrite repeat_length. reflexivity.
-  - unfold chans.
-    replace B with (zlen (@zeros CR SR B)) at 1 by (rewrite zlen_zeros; lia).
-    exact (@all_len_repeat CR SR (@zeros CR SR B) (Z.to_nat nch)).
-  - exact Hr.
-  - reflexivity.
-  - exact HL.
-  - exact Hnb.
-  - unfold so_new_last_index. cbv [copp c_of_Z CR cnum]. lra.
-  - unfold so_new_last_index. cbv [copp c_of_Z CR cnum].
-    replace (- IZR (ilen ÷ 2) + IZR chunk * / ratio + IZR ilen) with (IZR chunk * / ratio + IZR (ilen ÷ 2)) by lra.
-    rewrite Zceil_plus_Z. exact HN0.
-  - lia.
-  - lia.
+  constructor.
+  { constructor; unfold uC, uCmax, unch, uratio, uli, uL, unbr, ufill, uneeded; cbn [as_ctl as_buf as_mask];
+      cbn [SincFixedOut_nbr_channels SincFixedOut_chunk_size SincFixedOut_max_chunk_size SincFixedOut_needed_input_size
+           SincFixedOut_last_index SincFixedOut_current_buffer_fill SincFixedOut_resample_ratio SincFixedOut_target_ratio
+           SincFixedOut_interpolator_len SincFixedOut_interpolator_nbr_sincs].
+    - lia.
+    - exact Hn.
+    - unfold chans. rewrite repeat_length. reflexivity.
+    - unfold chans. rewrite repeat_length. reflexivity.
+    - unfold chans.
+      replace B with (zlen (@zeros CR SR B)) at 1 by (rewrite zlen_zeros; lia).
+      exact (@all_len_repeat CR SR (@zeros CR SR B) (Z.to_nat nch)).
+    - exact Hr.
+    - reflexivity.
+    - exact HL.
+    - exact Hnb.
+    - unfold so_new_last_index. cbv [copp c_of_Z CR cnum]. lra.
+    - unfold so_new_last_index. cbv [copp c_of_Z CR cnum].
+      replace (- IZR (ilen ÷ 2) + IZR chunk * / ratio + IZR ilen) with (IZR chunk * / ratio + IZR (ilen ÷ 2)) by lra.
+      rewrite Zceil_plus_Z. exact HN0.
+    - lia.
+    - lia. }
+  intros r2 Ha. cbn [as_ctl] in Ha. unfold so_set_ratio_accept in Ha.
+  cbn [SincFixedOut_resample_ratio_original SincFixedOut_max_relative_ratio] in Ha. cbv [cleb cdiv cmul CR cnum] in Ha.
+  apply andb_true_iff in Ha. destruct Ha as [Ha _]. revert Ha. case Rle_bool_spec; [|discriminate]. intros Ha _.
+  unfold uCmax, uL. cbn [as_ctl SincFixedOut_max_chunk_size SincFixedOut_interpolator_len]. apply HBcap. exact Ha.
+Qed.
+
+Corollary so_ctor_wf_R ratio maxrel env ilen inbr chunk nch s :
+  (1 <= chunk)%Z -> (0 <= nch)%Z -> (8 <= ilen)%Z -> (ilen mod 2 = 0)%Z -> nbr_ok (se_type env) inbr ->
+  @sinc_out_new CR SR ratio maxrel env ilen inbr chunk nch = inr (RSincOut env s) ->
+  exists blen, so_wf env blen s /\ ratio = uratio s /\ uL s = ilen.
+Proof.
+  intros Hc Hn HL Hev Hnb H. destruct (so_ctor_wfe_R ratio maxrel env ilen inbr chunk nch s Hc Hn HL Hev Hnb H) as (blen & [W _] & E).
+  exists blen. split; assumption.
 Qed.
